@@ -534,7 +534,11 @@ static std::string runCase(const std::string &line)
             std::string libn;
             std::string keys;
             for (size_t i = 0; i < im->libraryCount(); ++i) {
-                std::string base = im->key(i).substr(im->key(i).find_last_of('/') + 1);
+                // the last two path components: <graph directory>/<file>
+                std::string key = im->key(i);
+                size_t cut = key.find_last_of('/');
+                cut = (cut == std::string::npos || cut == 0) ? std::string::npos : key.find_last_of('/', cut - 1);
+                std::string base = cut == std::string::npos ? key : key.substr(cut + 1);
                 std::string d = dumpModel(im->library(i), false, false);
                 lib += base + "=" + h64(d) + ";";
                 libn += base + "=" + h64(normaliseMathInDump(d)) + ";";
